@@ -106,14 +106,14 @@ class FullExecutor(Executor):
     def list_method(self, st, recv, name, args, node):
         rn = self.recv_node(node)
         if name == "append":
-            self.assign_lvalue(st, rn, list_append(recv, coerce(args[0], recv.ty.elem)))
+            self.assign_lvalue(st, rn, list_append(recv, coerce(args[0], recv.ty.elem), st))
             return K(None)
         if name == "extend":
             other = args[0]
             if isinstance(other, STuple):
                 cur = recv
                 for it in other.items:
-                    cur = list_append(cur, coerce(it, recv.ty.elem))
+                    cur = list_append(cur, coerce(it, recv.ty.elem), st)
                 self.assign_lvalue(st, rn, cur)
                 return K(None)
             self.assign_lvalue(st, rn, seq_concat(recv, coerce(other, recv.ty), st))
@@ -242,7 +242,7 @@ class FullExecutor(Executor):
             c = CONTRACTS.get(f"{fn.__module__}:{fn.__qualname__}")
         if c is None:
             raise Unsupported(f"call to {key}: no contract, not inlined, not in the external table (line {self.cur_line})")
-        if c.kind == "inline":
+        if c.kind == "inline" or (c.opts.get("inline_at_calls") and c.key != self.c.key):
             return self.inline_call(st, c, fn, args, kwargs, stmt_level, expr_only)
         return self.call_contract(st, c, args, kwargs, stmt_level, node, real_fn=fn)
 
@@ -413,7 +413,38 @@ class FullExecutor(Executor):
                 s3.assume(z3.Not(self.eval_contract(s3, cond, bind)))
         new_env = self.havoc_modifies(s3, c, env, node)
         result = None
-        if c.ret is not None:
+        if c.ret is not None and c.functional and not c.modifies and all(isinstance(env[p], (V, K, STuple)) for p in params):
+            # deterministic pure function: the result is an uninterpreted function of the arguments, so that a
+            # call under a quantifier denotes a different value for each instance
+            from .exec import REC_DECLS
+            cargs = [to_v(env[p]) for p in params]
+            fk = "fn:" + c.key + ":" + ",".join(str(a.ty) for a in cargs)
+            if fk not in REC_DECLS:
+                REC_DECLS[fk] = z3.Function("fn_" + T._mangle(c.key), *[a.ty.sort() for a in cargs], c.ret.sort())
+            result = V(c.ret, REC_DECLS[fk](*[a.z for a in cargs]))
+            wf_assumptions(result, s3)
+            if c.ensures is not None:
+                # the contract as one quantified axiom over the function symbol (triggered on the application)
+                axk = "axiom:" + fk
+                if axk not in REC_DECLS:
+                    formals = [fresh(a.ty, "ax_" + p) for p, a in zip(params, cargs)]
+                    sub = State()
+                    sub.ghost["__globals__"] = st.ghost.get("__globals__")
+                    fb = dict(zip(params, formals))
+                    pre = self.eval_contract(sub, c.requires, fb) if c.requires is not None else z3.BoolVal(True)
+                    app = REC_DECLS[fk](*[f.z for f in formals])
+                    fb2 = dict(fb)
+                    fb2["result"] = V(c.ret, app)
+                    post = self.eval_contract(sub, c.ensures, {k: v for k, v in fb2.items() if k in contract_ast(c.ensures)[1]})
+                    body = z3.Implies(z3.And(pre, *sub.pc) if sub.pc else pre, post)
+                    REC_DECLS[axk] = z3.ForAll([f.z for f in formals], body, patterns=[app])
+                s3.assume(REC_DECLS[axk])
+                val = result
+                if stmt_level:
+                    outs.append((s3, Outcome("value", val)))
+                    return outs
+                return val
+        elif c.ret is not None:
             result = fresh_seq(c.ret, s3, "r_" + tag.replace(".", "_")) if isinstance(c.ret, (TList, TStr)) else fresh(c.ret, "r_" + tag.replace(".", "_"))
             wf_assumptions(result, s3)
         if c.ensures is not None:
@@ -535,7 +566,7 @@ class FullExecutor(Executor):
             y = st.ghost.get("__yielded__")
             if y is None:
                 raise Unsupported("yield in a function without ghost_yield type")
-            st.ghost["__yielded__"] = list_append(y, coerce(val, y.ty.elem))
+            st.ghost["__yielded__"] = list_append(y, coerce(val, y.ty.elem), st)
             return [(st, NEXT)]
         if isinstance(v, ast.YieldFrom):
             val = self.eval(st, v.value)
